@@ -482,13 +482,24 @@ class SqlSite:
         return origin(self.bindings[i], self.fi)
 
 
+def flatten_starred(elts):
+    """[a, *(b, c), d] -> [a, b, c, d]  (a literal tuple spliced in place, as left by an expanded tuple-returning helper)"""
+    out = []
+    for x in elts:
+        if isinstance(x, ast.Starred) and isinstance(x.value, (ast.Tuple, ast.List)):
+            out += flatten_starred(x.value.elts)
+        else:
+            out.append(x)
+    return out
+
+
 def _rows_tuple(fi, name):
     """executemany(query, rows): find `rows.append((a, b, c))` -> [a, b, c] and the loop it sits in."""
     found = []
     for n in walk_own(fi.node):
         if isinstance(n, ast.Call) and isinstance(n.func, ast.Attribute) and n.func.attr == "append" and isinstance(n.func.value, ast.Name) and n.func.value.id == name:
             if len(n.args) == 1 and isinstance(n.args[0], (ast.Tuple, ast.List)):
-                found.append(n.args[0].elts)
+                found.append(flatten_starred(n.args[0].elts))
             else:
                 return None
     if len(found) == 1:
@@ -540,6 +551,7 @@ def _sql_sites(prog, mod_name):
                     # values + (bucket_id,)  ==  (*values, bucket_id)
                     b = ast.copy_location(ast.Tuple(elts=[ast.Starred(value=b.left, ctx=ast.Load())] + list(b.right.elts), ctx=ast.Load()), b)
                 if isinstance(b, (ast.List, ast.Tuple)):
+                    b = ast.copy_location(type(b)(elts=flatten_starred(b.elts), ctx=ast.Load()), b)
                     if any(isinstance(x, ast.Starred) for x in b.elts):
                         # (*values, bucket_id): only the trailing fixed part is positional from the end
                         site.bind_star = b
